@@ -58,6 +58,18 @@ def run(ctx):
     part = os.path.join(d, "c04.part")
     routerfam.partition_by_name(os.path.join(d, "c04.ndjson"), part)
     routerfam.validate(ctx, part, only=["Inv_C04_", "Inv_C03_Header", "Inv_C07_StoreOwnKey", "Inv_C10_ExactQuestion", "Unconsumable"], require_events=3000, timeout=3000)
+    # the second-level (redis) cache's paths against a minimal RESP3 server: stores queued for a slow server
+    # (the queue overflows, stores are dropped), redis hits promoted to the memory cache
+    d2 = os.path.dirname(ctx.path("c20redis", "x"))
+    o2 = ctx.driver(drv, ["-mode", "c20redis", "-dir", d2], timeout=1200, ok_codes=(0, 3, 66), env={"GORACE": "halt_on_error=0 exitcode=0"})
+    own2 = os.path.join(d2, "own.ndjson")
+    if race:
+        n, sk = race_events(o2, own2)
+        ctx.extra["race_reports"] = ctx.extra.get("race_reports", 0) + n
+    ctx.validate("OwnershipTrace", own2, keyfn, describe=describe, timeout=3000, require_events=2000)
+    part2 = os.path.join(d2, "c20redis.part")
+    routerfam.partition_by_name(os.path.join(d2, "c20redis.ndjson"), part2)
+    routerfam.validate(ctx, part2, only=["Inv_C04_", "Inv_C03_Header", "Inv_C03_Decodable", "Inv_C07_StoreOwnKey", "Unconsumable"], require_events=3000, timeout=3000)
     # transports: cancellations and connection failures (C06 / C05 style runs) with the pool hook active
     xdrv = vf.build_driver("xportdrv", race=race)
     for mode, n in (("reuse", 1500), ("pipe", 1500), ("dohcancel", 1200)) + ((("fault", 0), ("life", 0)) if race else ()):
